@@ -110,8 +110,12 @@ def run_history(h):
         faildir = os.path.join(workdir, 'fail')
         os.makedirs(faildir, exist_ok=True)
         os.environ['LV_FAILDIR'] = faildir
+        epoch = 0
+        stored = {}     # task id -> full value (with epoch) of its last successful execution under a caching type
         for op in h['ops']:
             if op[0] == 'run':
+                epoch += 1
+                os.environ['LV_EPOCH'] = f'run{epoch}'
                 for f in os.listdir(faildir):
                     os.unlink(os.path.join(faildir, f))
                 for t in (op[4] if len(op) > 4 else []):
@@ -149,6 +153,12 @@ def run_history(h):
                             bad = [found[i] for i in case['reads'][t] if found[i] in fin and fin[found[i]] is None]
                             if bad:
                                 problems.append(('stale-read-of-failed-dep', f'task {t} computed a result in a run in which the dependencies {bad} it reads had failed'))
+                            # C01: what an executed task read is what its dependencies yielded in this very call (values carry
+                            # the epoch of the run_tasks call that computed them, so a value kept from an earlier call shows)
+                            for k, i in enumerate(case['reads'][t]):
+                                if fin.get(found[i]) is not None and tuple(v[2][k]) != tuple(fin[found[i]]):
+                                    problems.append(('stale-dependency-value', f'task {t} was executed in run {epoch} and read {v[2][k]!r} from dependency {found[i]}, '
+                                                                               f'which yielded {fin[found[i]]!r} in this run'))
                 except S.Deadlock:
                     outs.append(['stuck'])
                 except LabError:
@@ -156,6 +166,15 @@ def run_history(h):
                     outs.append(['laberror', fails[-1] if fails else -1])
                 except BaseException as e:   # noqa
                     outs.append(['other', repr(e)[:200]])
+                # C06: a loaded result is the one the last successful execution produced (epoch included)
+                will_load = {e[1] for e in rec.ev if e[0] == 'submit' and e[2]}
+                for e in rec.ev:
+                    if e[0] == 'finish' and e[2] is not None:
+                        if e[1] in will_load:
+                            if e[1] in stored and tuple(e[2]) != tuple(stored[e[1]]):
+                                problems.append(('loaded-value-differs', f'task {e[1]} was loaded from the cache as {e[2]!r}; its last successful execution returned {stored[e[1]]!r}'))
+                        elif h['provider'] != 'null' and S.CACHEABLE[case['types'][e[1]]]:
+                            stored[e[1]] = e[2]
                 oracles.append(rec.batches)
                 _after = sorted(t for t in range(case['n']) if lab.is_cached(built.canon[t]))
                 lost = [t for t in _before if t not in _after]
@@ -171,6 +190,8 @@ def run_history(h):
                         problems.append(('cached-but-executed', f'task {e[1]} was cached but was executed again'))
             elif op[0] == 'uncache':
                 lab = Lab(storage=storage, runner_backend='serial', notebook=False)
+                for t in op[1]:
+                    stored.pop(t, None)
                 try:
                     lab.uncache_tasks([built.canon[t] for t in op[1]])
                     outs.append(['unit'])
@@ -198,6 +219,8 @@ def run_history(h):
                                 problems.append(('key-differs', 'reconstructed task has another cache_key'))
                             if t.result_meta is None or t.result_meta.start is None:
                                 problems.append(('no-meta', 'reconstructed task carries no stored result_meta'))
+                            if not lab.is_cached(t):
+                                problems.append(('listed-not-cached', f'cached_tasks lists task {built.tid_of[t]} but is_cached says False for the listed object'))
                     if len(tids) != len(set(tids)):
                         problems.append(('listed-twice', f'cached_tasks listed a task more than once: {sorted(tids)}'))
                     outs.append(['list', sorted(set(tids))])
@@ -206,9 +229,25 @@ def run_history(h):
                 oracles.append(None)
         lab = Lab(storage=storage, runner_backend='serial', notebook=False)
         final = sorted(t for t in range(case['n']) if lab.is_cached(built.canon[t]))
+        # C06 probe: a same-named task type of another module with the same parameter values is a different task;
+        # it was never run, so it is not cached and running it never yields what was stored for its namesake
+        import lv_universe2 as U2
+        for t in final:
+            c = built.canon[t]
+            twin = U2.TWINS[type(c).__qualname__](label=c.label, deps=c.deps, beh=c.beh, reads=c.reads, talk=c.talk)
+            try:
+                if lab.is_cached(twin):
+                    got = lab.run_tasks([twin], disable_progress=True, disable_top=True).get(twin)
+                    problems.append(('other-task-served', f'task {t} is cached; the same-named task of another module with equal parameters, never run, is reported '
+                                                           f'as cached and run_tasks returned {got!r} for it'))
+                    break
+            except BaseException as e:   # noqa
+                problems.append(('other-task-served', f'probing the twin of task {t} raised {e!r}'))
+                break
         return dict(outs=outs, oracles=oracles, final=final, problems=problems)
     finally:
         os.environ.pop('LV_FAILDIR', None)
+        os.environ.pop('LV_EPOCH', None)
         shutil.rmtree(workdir, ignore_errors=True)
 
 
@@ -272,10 +311,11 @@ def run_histories(prop, report, tier, seed, replay=None):
         dist[f"len={len(h['ops'])}"] += 1
         for out in obs['outs']:
             dist[f'out={out[0]}'] += 1
-        owner = {'entry-lost-by-run': 'C08', 'entry-appeared': 'C08', 'cached-but-executed': 'C06', 'no-result-meta': 'C06', 'result-meta-differs': 'C06', 'stale-read-of-failed-dep': 'C02',
-                 'foreign-task': 'C09', 'key-differs': 'C09', 'no-meta': 'C09', 'listed-twice': 'C09'}
+        owner = {'entry-lost-by-run': ['C08'], 'entry-appeared': ['C08'], 'cached-but-executed': ['C06'], 'no-result-meta': ['C06'], 'result-meta-differs': ['C06'],
+                 'other-task-served': ['C06'], 'loaded-value-differs': ['C06'], 'stale-read-of-failed-dep': ['C02'], 'stale-dependency-value': ['C01', 'C02'],
+                 'foreign-task': ['C09', 'C08'], 'key-differs': ['C09', 'C08'], 'no-meta': ['C09'], 'listed-twice': ['C09', 'C08'], 'listed-not-cached': ['C08', 'C09']}
         for sig, what in obs['problems']:
-            if owner.get(sig) == prop:
+            if prop in owner.get(sig, []):
                 report.violation(f'{prop}:{sig}', what, dict(history=h))
         others = [o for o in obs['outs'] if o[0] == 'other']
         if others and prop == 'C08':
@@ -419,13 +459,19 @@ def fault_task(cache_kind, shape):
     return U.Ta(label=1, beh='unpicklable' if shape == 'unpicklable' else 'ok')
 
 
+NEW_VALUES = {}
+OLD_VALUES = {'small': ('OLD', 1), 'large': ('OLD', 1, b'\x01' * 200_000, b'\x01' * 200_000)}
+
+
 def save_counts(cache_kind, shape):
     """Dry run through the real run_or_load_task: the storage effects of one save (kinds, in order)."""
     d = tempfile.mkdtemp(dir=subdir('fault'))
     try:
         st = FaultyStorage(LocalStorage(os.path.join(d, 's')))
         lab = Lab(storage=st, continue_on_failure=True, runner_backend='serial', notebook=False)
-        lab.run_tasks([fault_task(cache_kind, shape)], bust_cache=True, disable_progress=True, disable_top=True)
+        t = fault_task(cache_kind, shape)
+        res = lab.run_tasks([t], bust_cache=True, disable_progress=True, disable_top=True)
+        NEW_VALUES[(cache_kind, shape)] = res.get(t)
         return list(st.trace)
     finally:
         shutil.rmtree(d, ignore_errors=True)
@@ -460,9 +506,16 @@ def run_fault(fc):
     try:
         inner = LocalStorage(os.path.join(d, 's'))
         t = fault_task(fc['cache'], fc['shape'])
-        old_value = ('OLD', 1)
+        old_value = OLD_VALUES[fc.get('old') or 'small']
         if fc['overwrite']:
+            if fc['cache'] == 'json':
+                old_value = ('OLD', 1) if fc.get('old') != 'large' else ('OLD', 1, 'x' * 5000)
             t._lt.cache.save(inner, t, TaskResult(value=old_value, meta=ResultMeta(start=datetime(2020, 1, 1), duration=timedelta(seconds=1))))
+            if fc.get('old') == 'large':
+                # an old entry whose files are longer than the new ones (trailing whitespace is valid JSON): an overwrite
+                # must not leave any of it behind
+                with open(os.path.join(d, 's', t.cache_key, 'metadata.json'), 'a') as f:
+                    f.write(' ' * 300 + '\n')
         reported_failed = None
         if fc['crash']:
             ctx = multiprocessing.get_context('fork')
@@ -481,7 +534,8 @@ def run_fault(fc):
         if cached:
             try:
                 v = t._lt.cache.load_result_with_meta(inner, t).value
-                loaded = 1 if (isinstance(v, (tuple, list)) and len(v) == 2 and v[0] == 'OLD') else 2
+                new_value = NEW_VALUES.get((fc['cache'], fc['shape']))
+                loaded = 1 if v == old_value else (2 if (new_value is None or v == new_value) else 3)
             except BaseException as e:   # noqa
                 load_error = repr(e)[:120]
         listed = False
@@ -540,9 +594,9 @@ def run_faults(prop, report, tier, seed, replay=None):
                 keep = set(points[:4] + points[-5:] + [fcl - 1, fcl, fcl + 1, fcl + 2, fcl + 3, fcl + 4] + rng.sample(points, 3))
                 points = sorted(k for k in keep if k in points)
             for n in points:
-                for overwrite in (False, True):
+                for overwrite, old in ((False, None), (True, 'small'), (True, 'large')):
                     for flushed in ((True, False) if crash else (True,)):
-                        fcs.append(dict(cache=cache, shape=shape, n=n, overwrite=overwrite, crash=crash, flushed=flushed))
+                        fcs.append(dict(cache=cache, shape=shape, n=n, overwrite=overwrite, old=old, crash=crash, flushed=flushed))
     terms, kept = [], []
     dist = Counter()
     for fc in fcs:
@@ -552,6 +606,10 @@ def run_faults(prop, report, tier, seed, replay=None):
         dist[f"cache={fc['cache']},shape={fc['shape']}"] += 1
         dist[f"cached={obs['cached']},loaded={obs['loaded']}"] += 1
         bad = None
+        if obs['loaded'] == 3:
+            report.violation(f'{prop}:loads-wrong-value', f"after the {'kill' if crash else 'failed save'} the entry loads, but as a value that is neither the old nor the new result "
+                                                        f"[{crash_class(fc, trace)}; cache={fc['cache']}, result={fc['shape']}, old entry={fc.get('old')}, effects completed={fc['n']}]",
+                             dict(fault=fc, observed=obs))
         if obs['cached'] and obs['loaded'] is None:
             bad = ('cached-but-unloadable', f"after the {'kill' if crash else 'failed save'} the task is reported as cached but loading fails: {obs['load_error']}")
         elif obs['listed'] is True and obs['loaded'] is None:
